@@ -16,7 +16,7 @@ def _cli_rows(chk, n):
     jobs = []
     for i in picks:
         prog, cfgs, faults = pl[i]
-        cfg = rnd.choice(cfgs)
+        cfg = dict(rnd.choice(cfgs), retry=False)       # (the child project has no auto-retry patch)
         fault = rnd.choice(faults)
         case, flat = C.make_case(1, prog, [cfg], [fault])
         jobs.append({"prog": prog, "flat": flat, "cfg": cfg, "fault": fault, "fault_kind": "exc", "tla": case})
@@ -31,12 +31,12 @@ def _cli_rows(chk, n):
         events = []
         for e in out["events"]:
             events.append({"k": e["k"], "name": e.get("name", ""), "el": e.get("el", 0), "tag": e.get("tag", ""), "raised": bool(e.get("raised", False)),
-                           "pos": e.get("pos", 0), "outcome": e.get("outcome", ""), "status": "", "undefined": False, "cid": e.get("cid", 0)})
+                           "pos": e.get("pos", 0), "outcome": e.get("outcome", ""), "status": "", "undefined": False, "cid": e.get("cid", 0), "att": 1})
         end = inproc["end"]
         rows.append({"id": k + 1, "prog": job["tla"]["prog"], "cfg": job["tla"]["cfgs"][0], "events": events, "exit": out["exit"],
                      "end": {"ran": True, "verdict": end["verdict"], "status": end["status"], "step_status": end["step_status"], "hook_failed": end["hook_failed"]},
                      "base": {"ran": False}})
-        if [(e["k"], e["name"], e["el"], e["pos"]) for e in events] != [(e["k"], e["name"], e["el"], e["pos"]) for e in inproc["events"] if e["k"] in ("hook", "step", "cleanup")]:
+        if [(e["k"], e["name"], e["el"], e["pos"]) for e in events] != [(e["k"], e["name"], e["el"], e["pos"]) for e in inproc["events"] if e["k"] in ("hook", "step", "cleanup", "sub")]:
             chk.divergences += 1
     return jobs, outs, rows
 
@@ -65,7 +65,7 @@ def replay(chk, payload):
         out = cli.run_cli(job)
         inproc = drive.run_case(job)
         events = [{"k": e["k"], "name": e.get("name", ""), "el": e.get("el", 0), "tag": e.get("tag", ""), "raised": bool(e.get("raised", False)),
-                   "pos": e.get("pos", 0), "outcome": e.get("outcome", ""), "status": "", "undefined": False, "cid": e.get("cid", 0)} for e in out["events"]]
+                   "pos": e.get("pos", 0), "outcome": e.get("outcome", ""), "status": "", "undefined": False, "cid": e.get("cid", 0), "att": 1} for e in out["events"]]
         end = inproc["end"]
         row = {"id": 1, "prog": case["prog"], "cfg": case["cfgs"][0], "events": events, "exit": out["exit"],
                "end": {"ran": True, "verdict": end["verdict"], "status": end["status"], "step_status": end["step_status"], "hook_failed": end["hook_failed"]},
